@@ -214,8 +214,23 @@ PROPS["C09"] = dict(
 
 PROPS["C04"] = dict(
     modules=["contracts.sched_sql", "contracts.C12_limits", "contracts.C10_dispatch", "contracts.C03_inputs",
-             "contracts.C13_hash", "contracts.C04_noop"],
-    decided=[], undecided=[], assumptions=[], level="", note="",
+             "contracts.C13_hash", "contracts.C04_noop", "contracts.C04_bounded"],
+    decided=["reset_interrupted_steps changes no step state and marks nothing pending when no step is RUNNING, CHECKING or "
+             "FAILED", "Executor._run_hash_job applies a recomputed file hash only if it differs from the stored one or the "
+             "cause is CONFIRMED", "FileHash.refreshed returns the stored hash when mode, mtime, size and inode are unchanged "
+             "(C13)", "the dispatch query selects only PENDING steps (C10), so a workflow whose steps all SUCCEEDED "
+             "dispatches nothing", "Executor.try_skip_job never launches a command and completes a step only when both "
+             "digests equal the stored ones (C03)", "Step.after_recycle keeps state and stored hash (only FAILED becomes "
+             "PENDING)", "the stored step hash is dropped only in the four places the property allows (scan)",
+             "no command is launched outside run jobs (C12 scan)"],
+    undecided=["that every history ending in a successful build reaches the quiescent state (bounded stand-in)",
+               "sentence 2: after editing sources only the cone of the edit reruns (not decided)", "rescan_files, "
+               "rescan_env_vars, rescan_nglobs and the watcher are covered by the bounded stand-in only"],
+    assumptions=["os.stat reports changed mode, mtime, size or inode for a changed file", "relational reading of SQLite"],
+    level="Sentence 1 is reduced to per-function contracts on the real start-up, hash-job, dispatch and recycle functions, "
+          "each proved from a quiescent entry state or as an only-if guard on the effect that would rerun something; the "
+          "composition over whole histories is a bounded stand-in on the real Workflow and Scheduler.",
+    note="Trusted: SQLite, os.stat, the executor stand-ins of C03, solvers, pyvc.",
 )
 
 NOT_BUILT = {}
